@@ -74,6 +74,12 @@ for _k, _v in list(POSITIONS.items()):
         POSITIONS[_k + '-joined-body'] = _v.replace('from {T})', 'from int1.t3 as y join {T} as x on x.a = y.a)') \
             .replace('select a from int1.t3', 'select x.a from int1.t3').replace('select max(a) from int1.t3', 'select max(x.a) from int1.t3') \
             .replace('select * from int1.t3', 'select x.* from int1.t3')
+# lists longer than a handful (a walker may stop looking at a threshold): the interesting item comes late
+for _n in (20, 70, 140):
+    _lits = ', '.join(str(i) for i in range(_n))
+    POSITIONS['subquery-late-in-list-%d' % _n] = 'select * from int1.t1 where a in (%s, (select max(a) from {T}), 7)' % _lits
+    POSITIONS['qualified-column-late-in-list-%d' % _n] = 'select * from int1.t1 where a in (%s, int1.t1.b, 7) and b in (select a from {T})' % _lits
+    POSITIONS['subquery-late-in-function-args-%d' % _n] = 'select coalesce(%s, (select max(a) from {T})) from int1.t1' % _lits
 POSITIONS['nested-from-where-subquery'] = 'select * from (select * from int1.t1) as s where s.a in (select a from {T})'
 POSITIONS['nested-from-where-subquery-deep'] = 'select * from (select * from (select * from int1.t1) as u where u.a in (select a from {T})) as s'
 POSITIONS['nested-from-target-subquery'] = 'select s.a, (select max(a) from {T}) as m from (select * from int1.t1) as s'
@@ -97,7 +103,21 @@ TARGETS = {
     'model': ('mindsdb.pred', 'mindsdb.pred'),
     'model-versioned': ('proj.pred2.3', 'proj.pred2.3'),
     'project-table': ('proj.v1', 'proj.v2'),
+    # a model / a table of the project that list-form models WITHOUT integration_name live in (predictor_namespace)
+    'model-implied-namespace': ('models.pred.3', 'models.pred'),
+    'table-in-implied-namespace': ('models.saved_view', 'models.v2'),
 }
+
+
+LOCAL_CATALOGS = {
+    # list-form models, one of them without integration_name: it lives in predictor_namespace, which is not `mindsdb`
+    'implied-models-namespace': dict(integrations=['int1', 'int2'], predictor_namespace='models', default_namespace='mindsdb',
+                                     predictor_metadata=[{'name': 'pred'}, {'name': 'pred2', 'integration_name': 'proj', 'to_predict': ['y']}]),
+}
+
+
+def cat_of(name):
+    return copy.deepcopy(LOCAL_CATALOGS[name]) if name in LOCAL_CATALOGS else plancorpus.catalog(name)
 
 
 def spell(name, how):
@@ -257,7 +277,7 @@ def _hist(args):
     sqls, catname, mode = args
     from mindsdb_sql import parse_sql
     from . import planhist
-    kw = plancorpus.catalog(catname)
+    kw = cat_of(catname)
     cat = catalog_rec(copy.deepcopy(kw))
     out = []
     for sql, st, plan in planhist.run_history(sqls, kw, mode):
@@ -272,8 +292,8 @@ def _hist(args):
 
 def run(ctx):
     thorough = ctx.tier == 'thorough'
-    cats = ['names', 'dicts', 'legacy-dict', 'no-default', 'default-int1', 'default-int2-dicts'] if thorough else \
-        ['names', 'dicts', 'legacy-dict', 'default-int1']
+    cats = ['names', 'dicts', 'legacy-dict', 'no-default', 'default-int1', 'default-int2-dicts', 'implied-models-namespace'] if thorough else \
+        ['names', 'dicts', 'legacy-dict', 'default-int1', 'implied-models-namespace']
     spellings = ['lower', 'upper', 'mixed']
     work, meta = [], []
     for pos, tmpl in POSITIONS.items():
@@ -283,7 +303,7 @@ def run(ctx):
                 if sp != 'lower':
                     sql = sql.replace('int1.', 'INT1.' if sp == 'upper' else 'Int1.')
                 for c in cats:
-                    work.append((sql, plancorpus.catalog(c)))
+                    work.append((sql, cat_of(c)))
                     meta.append((pos, tk, sp, c, sql))
     for h in plancorpus.harvest():
         if h['cls'] in ('Select', 'Union'):
@@ -343,5 +363,5 @@ def run(ctx):
 
 def replay(ctx, path):
     rec = json.load(open(path))['replay']
-    print(json.dumps(_case((rec['sql'], plancorpus.catalog(rec.get('catalog', 'names')))), indent=1)[:3000])
+    print(json.dumps(_case((rec['sql'], cat_of(rec.get('catalog', 'names')))), indent=1)[:3000])
     return 0
